@@ -24,7 +24,7 @@ RULE = (
 
 COMPLEX_OPS = ["rp2xy", "xy2rp", "rp2xy_all", "xy2rp_all", "std_polar", "std_polar_all", "standard_complex", "trans_params"]
 OPS = (
-    ["set", "set", "get", "set_all_dict", "set_all_list", "roundtrip", "save_reload", "refresh", "refresh"]
+    ["set", "set", "get", "set_all_dict", "set_all_list", "roundtrip", "save_reload", "refresh", "refresh", "var_set"]
     + COMPLEX_OPS
     + ["set_trans_var", "set_all_fit", "minimize", "bound_cycle", "bad_rebound", "mask_block", "temp_block", "bound_math", "read_paths"]
 )
@@ -461,6 +461,37 @@ class Session:
                     self.fail("bound-x2y", k, "set(%s, %r) under bound %s stored %r, transformation gives %r" % (n, v, b, got, y))
                 self.val[self.gid[n]] = got
             self.expect_all(k)
+        elif k == "var_set":
+            # assignments through the Variable objects (set_value / set_rho / set_phi): the same semantics as
+            # vm.set on the components (fit coordinates under an installed bound)
+            scal = [w for w in self.V if not w.shape]
+            if scal and not self.mask:
+                var = scal[op["i"] % len(scal)]
+                v1, v2 = op["v"], round(op["v"] * 0.37 - 0.5, 4)
+                how = (op["i"] // 7) % 3
+                assigned = []
+                if not var.cplx:
+                    var.set_value(v1)
+                    assigned = [(var.name, v1)]
+                elif how == 0:
+                    var.set_value([v1, v2])
+                    assigned = [(var.name + "r", v1), (var.name + "i", v2)]
+                elif how == 1:
+                    var.set_rho(v1)
+                    assigned = [(var.name + "r", v1)]
+                else:
+                    var.set_phi(v2)
+                    assigned = [(var.name + "i", v2)]
+                for n, v in assigned:
+                    b = self.bounds.get(n) if n in self.installed else None
+                    self.val[self.gid[n]] = ref_x2y(b, v) if b else v
+                    if b:
+                        got = float(vm.variables[n].numpy())
+                        if abs(got - self.val[self.gid[n]]) > 1e-10 * (1 + abs(got)):
+                            self.fail("bound-x2y", k, "Variable setter stored %r for %s, transformation of %r gives %r" % (got, n, v, self.val[self.gid[n]]))
+                        self.val[self.gid[n]] = got
+                self.changing += 1
+                self.expect_all(k)
         elif k == "get":
             n = self.pick_real(op["i"])
             fit = op.get("fit", True)
@@ -844,7 +875,7 @@ class Session:
                         self.val[self.gid[n]] = v
                 self.expect_all(k + ".enter")
                 for b in op.get("body", []):
-                    if b["k"] in ("set", "set_all_dict", "set_all_list", "set_trans_var", "set_all_fit", "minimize", "refresh", "bound_cycle", "bad_rebound"):
+                    if b["k"] in ("set", "set_all_dict", "set_all_list", "set_trans_var", "set_all_fit", "minimize", "refresh", "bound_cycle", "bad_rebound", "var_set"):
                         continue  # no assignments inside a block (the property does not say what a block must do with them)
                     if b["k"] in COMPLEX_OPS and (k != "mask_block" or self.in_temp):
                         continue  # a representation change inside a temp_params block is a permanent change of what it restores
